@@ -24,16 +24,23 @@ MCEntriesAt(m, i) ==
       [] m = "amounts3q"   -> Ent({Pos(i)}, Amt(1..2, 0..1, 0..1, {0}), {"ok"})
       [] m = "amounts3"    -> Ent({Pos(i)}, Amt(1..2, 0..1, 0..1, 0..1), {"ok"})
       [] m = "amountsNeg"  -> Ent({Pos(i)}, Amt(-1..2, -1..1, -1..1, -1..1), {"ok"})
+      [] m = "big1"        -> Ent({Pos(i)}, Amt(-1..2, -1..1, 0..1, 0..1), {"ok"})
+      [] m = "big2"        -> Ent({Pos(i)}, Amt(1..2, 0..1, {0}, 0..1), {"ok"})
       [] m = "addrq"       -> Ent({"u1", "u2", "sc1"} \X Forms3, Amt({1}, {1}, {0}, {0}), {"empty"})
       [] m = "addr"        -> Ent({"u1", "u2", "almost", "sc1"} \X Forms3, Amt({1}, {1}, {0}, {0}), {"empty"})
       [] m = "bothq"       -> WithDA({<<"u1", "lower">>, <<"u1", "upper">>, <<"sc2", "upper">>}, Amt(1..2, {1}, 0..1, 0..1))
       [] m = "both"        -> WithDA({<<"u1", "lower">>, <<"u1", "upper">>, <<"u2", "lower">>, <<"sc1", "lower">>}, Amt(1..2, 0..1, 0..1, 0..1))
 MCLensOf(m) == CASE m \in {"amounts3q", "amounts3"} -> {3}
+                 [] m = "big1" -> {1}
+                 [] m = "big2" -> {2}
                  [] m \in {"amounts2", "amountsNeg", "bothq", "both"} -> 0..2
                  [] OTHER -> 0..3
 MCConvsOf(m) == IF m \in {"addrq", "addr", "both"} THEN {"bech32", "hex"} ELSE {"bech32"}
 MCOffsetsOf(m) == IF m \in {"addrq", "addr", "bothq", "both"} THEN {0, 1} ELSE {-1, 0, 1}
-ModesQuick == {"amounts2", "amounts3q", "addrq", "bothq"}
+\* big-number modes: every unit x every mismatch magnitude; the other modes are written plainly
+MCUnitsOf(m) == IF m \in {"big1", "big2"} THEN {"1", "10^18", "real"} ELSE {"1"}
+MCMagsOf(m) == IF m \in {"big1", "big2"} THEN {"1", "2^32", "2^63", "2^64", "2^64-1", "2^64+1", "3*2^64", "10^18"} ELSE {"1"}
+ModesQuick == {"amounts2", "amounts3q", "addrq", "bothq", "big1", "big2"}
 ModesCex == {"addrq"}
-ModesThorough == {"amounts2", "amounts3", "amountsNeg", "addr", "both"}
+ModesThorough == {"amounts2", "amounts3", "amountsNeg", "addr", "both", "big1", "big2"}
 ====
